@@ -274,6 +274,82 @@ func compositions(r *lib.Report, tier string) (int64, int64, []interface{}) {
 			}
 		}
 	}
+	// deep chains: d FlatMaps (d = every length to 40, then around the powers of two up to 4097) with steps that do not
+	// commute (x -> 31x+k mod p), left-nested (m.FlatMap(f1).FlatMap(f2)...) and right-nested (m.FlatMap(x -> f1(x).FlatMap(
+	// x -> f2(x)...))): nothing runs before Eval, each Eval runs effect 0 and then steps 1..d once, in that order, and
+	// yields the value of the composition
+	{
+		var ds []int
+		for d := 5; d <= 40; d++ {
+			ds = append(ds, d)
+		}
+		for p := 64; p <= 4096; p *= 2 {
+			ds = append(ds, p-1, p, p+1, p+2)
+		}
+		for _, d := range ds {
+			for shape := 0; shape < 2; shape++ {
+				states++
+				var log []int
+				step := func(k int) func(int) *fpgo.MonadIODef[int] {
+					return func(x int) *fpgo.MonadIODef[int] {
+						return fpgo.MonadIONewGenerics(func() int { log = append(log, k); return (x*31 + k) % 1000003 })
+					}
+				}
+				m := fpgo.MonadIONewGenerics(func() int { log = append(log, 0); return 7 })
+				var right func(k int) func(int) *fpgo.MonadIODef[int]
+				right = func(k int) func(int) *fpgo.MonadIODef[int] {
+					return func(x int) *fpgo.MonadIODef[int] {
+						if k == d {
+							return step(k)(x)
+						}
+						return step(k)(x).FlatMap(right(k + 1))
+					}
+				}
+				msg := ""
+				p := lib.Catch(func() {
+					if shape == 0 {
+						for k := 1; k <= d; k++ {
+							m = m.FlatMap(step(k))
+						}
+					} else {
+						m = m.FlatMap(right(1))
+					}
+					if len(log) != 0 {
+						msg = fmt.Sprintf("%d effect(s) ran while the chain was being built", len(log))
+						return
+					}
+					want := 7
+					for k := 1; k <= d; k++ {
+						want = (want*31 + k) % 1000003
+					}
+					for ev := 0; ev < 2 && msg == ""; ev++ {
+						trans++
+						log = log[:0]
+						got := m.Eval()
+						if len(log) != d+1 {
+							msg = fmt.Sprintf("evaluation %d ran %d effects, want %d", ev+1, len(log), d+1)
+							break
+						}
+						for i, k := range log {
+							if i != k {
+								msg = fmt.Sprintf("evaluation %d: effect #%d to run was step %d (composition order is 0..%d)", ev+1, i, k, d)
+								break
+							}
+						}
+						if msg == "" && got != want {
+							msg = fmt.Sprintf("evaluation %d gave %d, the composition's value is %d", ev+1, got, want)
+						}
+					}
+				})
+				if p != "" {
+					msg = "panic: " + p
+				}
+				if msg != "" {
+					r.Violation("C11|deep-chain|"+[]string{"left", "right"}[shape]+"-nested", fmt.Sprintf("a chain of %d FlatMaps (%s-nested): %s", d, []string{"left", "right"}[shape], msg), nil)
+				}
+			}
+		}
+	}
 	return states, trans, samples
 }
 
